@@ -68,7 +68,7 @@ CLAIMED = {
 
 # widenings of the last waves (appended to the level text of the property)
 EXTRA = {
-    "C07": " Also: node-hook sizes MaxInt/negative, the buffer maximum lowered on the live queue (own scenario), and Offer/Poll/Count must take zero virtual time in stall-free runs (they may not wait behind a lock holder that sleeps).",
+    "C07": " Also: node-hook sizes MaxInt/negative, and Offer/Poll/Count must take zero virtual time in stall-free runs (they may not wait behind a lock holder that sleeps).",
     "C08": " The wrapped structure may also be bounded (rejections are part of the sequential model), hold pointer elements one of which is nil, or be cleared by its owner between phases.",
     "C09": " Also: batch size MaxInt, timeouts <= 0, nil jobs in front of real ones; a timed call must return within timeout + retry interval in stall-free runs.",
     "C10": " Also: callbacks bound through the returned handle, an unsubscribed Subscription value subscribed again.",
